@@ -464,6 +464,7 @@ static Model load(const std::string& path) {
 }
 static void kinds_in(const E& e, std::set<int>& s) { s.insert(e.op); for (auto& k : e.kids) kinds_in(k, s); }
 
+#ifndef NLW_SHIM_AS_LIBRARY
 int main(int argc, char** argv) {
   std::string mode = argc > 1 ? argv[1] : "rc";
   char tmpl[] = "/var/tmp/nlwXXXXXX"; if (!mkdtemp(tmpl)) return 2; g_dir = tmpl;
@@ -499,3 +500,4 @@ int main(int argc, char** argv) {
   printf("]}\n");
   return 0;
 }
+#endif  // NLW_SHIM_AS_LIBRARY
